@@ -943,6 +943,11 @@ const META_PIECES: &[&str] = &[
     "null", "~", "true", "false", "yes", "no", "1e3", "0x1f", "0o7", ".inf", ".nan", "1_000", "012", "+1", "-", " ", "  ", "\t",
     "(", ")", ";", "#t", "#f", "#\\a", "'(", "|", ".", " . ", "nil", "()", "#(", ",@", "\\\\", "\\\"", "\\n", "\\t", "\\r", "\\~",
     "/*", "*/", "//", "\u{2028}", "\u{feff}", "\u{0}", "key: value", "- item", "a: b: c", "\"", "end", "begin", "&", "*", "!", "%", "@x", "`x`",
+    // fragments that look like the structure of the serialized forms themselves: what a text-level
+    // post-processing of JSON / S-expression / YAML output would damage inside a string
+    ") (", ")(", "( ", " )", "(Top (", "(a . b)", "\" . \"", "(1 . 2) (3 . 4)", "))", "((", "{\"Top\":[", "\":{\"", "\",\"", "}},{", "]}", "[{", "\":", ",\"",
+    "\n- ", "\n  - Print:", "\n---\n", "\n...\n", ": |", ": >", "? :", " :", ", ", "\n  ", "\n\n", " \n", "\n ", "\t- ", "- - ", "[]", "{}", "{0}", "%s", "$x", "${x}",
+    "\\\\n", "\\\\\\\\", "\\\"\\\"", "&amp;", "<x>", "#!", "\r", "\r\n- a", "\u{85}", "\u{a0}", " \u{3000}", "\u{202e}", "\u{e000}", "\u{1f600}\u{200d}",
 ];
 
 pub fn gen_format(rng: &mut Rng, regime: StrRegime, nargs: usize, long_max: usize) -> String {
